@@ -32,6 +32,9 @@ def configs(tier):
             c.append(("tp=%s,script=T1s,ma=b,mb=b,sig=1,resend=%d,%s" % (tp, resend, M), dq if q else dt))
             c.append(("tp=%s,script=T6,ma=b,mb=nb,style=strict,sig=1,resend=%d,%s" % (tp, resend, M),
                       (dq if q else dt) - (1 if tp in ("tls", "utlstls") else 0)))
+        # accepted, finished, closed: everything must have arrived before the peer sees the end
+        c.append(("tp=%s,script=T4,style=spec,%s" % (tp, M), dq if q else dt))
+        c.append(("tp=%s,script=T4,ma=b,mb=nb,style=spec,%s" % (tp, M), (dq if q else dt) - 1))
         # EAGAIN refusals with re-send (non-blocking): duplicates would show
         c.append(("tp=%s,script=T2,style=loop,%s" % (tp, M), dq if q else dt))
     return c
